@@ -31,6 +31,7 @@ FUNCTIONS = [
 ]
 BOUNDS = {
     "values": "n, m: all ints (0..3 for bit operators, where CrossHair forks per bit); s, t: all strings of <= 2 characters; b: both booleans; o: None or any int",
+    "nested programs": "25 Type.<type>[.<attribute>] programs over a record holding a record and a list of records x 2 engines",
     "typed programs": "76 helper / comparison / membership programs over a record with ipaddress (v4, v6), ipnetwork, uri, path, string[], bytes, float, command, filesize fields x 2 engines",
     "programs": "quick: every predicate with operands of depth <= 1 (spec/grammar.py) + 60 seeded and/or/not combinations, x 2 engines; "
     "thorough: operands of depth <= 2 + 1500 seeded combinations",
@@ -196,6 +197,138 @@ def typed_diff(expr: str, engine: str):
     return check
 
 
+# ---- Type.<type>[.<attribute>] over records that hold records (record / record[] fields): the matcher descends into them
+NESTED_INNER = [("uri", "u"), ("path", "p"), ("string", "s2"), ("varint", "n2")]
+NESTED_OUTER = [("record", "inner"), ("record[]", "many"), ("string", "s"), ("varint", "n"), ("uri", "ou")]
+NESTED_PROGRAMS = [
+    "Type.uri.scheme == 'ab'", "Type.uri.scheme == 'ftp'", "Type.uri.scheme == r.s", "Type.uri.netloc in ['x', r.s]", "Type.path.name == 'b'", "Type.path.name == r.s", "Type.path.suffix == '.txt'",
+    "'t' in Type.uri.scheme", "Type.uri.scheme != 'ab'", "Type.uri.scheme >= r.s", "Type.string == r.s + 'n'", "Type.string == 'deep'", "Type.varint == r.n + 1", "Type.varint > r.n",
+    "Type.varint == 41", "Type.uri == 'ftp://deep/c.txt'", "Type.uri.nosuchattr == 1", "Type.string.nosuchattr == r.s", "any(x == Type.uri.scheme for x in ['ftp', r.s])",
+    "Type.string in ['deep']", "Type.string in [r.s + 'n']", "Type.string not in ['deep']", "Type.varint in [r.n + 1, 0]", "Type.uri.scheme in ['zz', r.s]", "Type.path.name not in [r.s]",
+]
+
+
+def nested_parts(s, n):
+    """(outer values, inner values, [values of the records in the list]): the outer record's text and number are the symbolic ones;
+    the programs compare them with values that exist only in the nested records, so a verdict hinges on a nested value"""
+    import flow.record.fieldtypes as FT
+
+    inner = {"u": FT.uri("ab://x/y"), "p": FT.path.from_posix("/a/b"), "s2": "in", "n2": 5}
+    many = [{"u": FT.uri("ftp://deep/c.txt"), "p": FT.path.from_posix("/d/c.txt"), "s2": "deep", "n2": 41}, {"u": None, "p": None, "s2": None, "n2": None}]
+    outer = {"s": s, "n": n, "ou": FT.uri("go://o/")}
+    return outer, inner, many
+
+
+class RefNestedType:
+    """reference for Type.<type>[.<attr>...]: 'for any value of a field of that type, in this record or in a record it holds (at
+    any depth), whose attribute chain exists'"""
+
+    def __init__(self, tree, t=None, attrs=()):
+        self._tree, self._t, self._attrs = tree, t, attrs
+
+    def __getattr__(self, a):
+        if a.startswith("_"):
+            raise AttributeError(a)
+        return RefNestedType(self._tree, a, ()) if self._t is None else RefNestedType(self._tree, self._t, self._attrs + (a,))
+
+    def _vals(self, tree=None):
+        fields, values = tree or self._tree
+        out = []
+        for ft, name in fields:
+            v = values[name]
+            if ft == self._t:
+                ok = True
+                for a in self._attrs:
+                    if v is None or not hasattr(v, a):
+                        ok = False
+                        break
+                    v = getattr(v, a)
+                if ok:
+                    out.append(v)
+        for ft, name in fields:
+            v = values[name]
+            if ft == "record" and v is not None:
+                out += self._vals(v)
+            if ft == "record[]" and v is not None:
+                for x in v:
+                    out += self._vals(x)
+        return out
+
+    def _any(self, f):
+        for v in self._vals():
+            if f(v):
+                return True
+        return False
+
+    def __eq__(self, o):
+        return self._any(lambda v: v == o)
+
+    def __ne__(self, o):
+        return self._any(lambda v: v != o)
+
+    def __lt__(self, o):
+        return self._any(lambda v: v < o)
+
+    def __le__(self, o):
+        return self._any(lambda v: v <= o)
+
+    def __gt__(self, o):
+        return self._any(lambda v: v > o)
+
+    def __ge__(self, o):
+        return self._any(lambda v: v >= o)
+
+    def __contains__(self, o):
+        return self._any(lambda v: o in v)
+
+    __hash__ = None
+
+
+def _nested_ref(expr, s, n):
+    outer, inner, many = nested_parts(s, n)
+    tree = (NESTED_OUTER, dict(outer, inner=(NESTED_INNER, inner), many=[(NESTED_INNER, m) for m in many]))
+    ns = selector_ref.namespace(dict(outer, inner=None, many=None), NESTED_OUTER, "test/outer")
+    ns["Type"] = RefNestedType(tree)
+    code, subs = selector_ref.compile_ref(expr)
+    return selector_ref.evaluate(code, subs, ns)
+
+
+def _nested_record(s, n, inject=False):
+    from flow.record import RecordDescriptor
+
+    DI = RecordDescriptor("test/inner", NESTED_INNER)
+    DO = RecordDescriptor("test/outer", NESTED_OUTER)
+    outer, inner, many = nested_parts("" if inject else s, 0 if inject else n)
+    ri = DI(*[inner[k] for _, k in NESTED_INNER], _generated=1)
+    rm = [DI(*[m[k] for _, k in NESTED_INNER], _generated=1) for m in many]
+    ro = DO(ri, rm, outer["s"], outer["n"], outer["ou"], _generated=1)
+    if inject:
+        object.__setattr__(ro, "s", s)
+        object.__setattr__(ro, "n", n)
+    return ro
+
+
+def nested_diff(expr: str, engine: str):
+    """Differential for Type.<type>.<attribute> programs over a record holding records: the engine's verdict equals the reference
+    meaning (any value of that type at any depth); text and number of the inner record symbolic."""
+    from flow.record.selector import CompiledSelector, Selector
+
+    sel = Selector(expr) if engine == "i" else CompiledSelector(expr)
+
+    def check(s: str, n: int) -> bool:
+        """
+        post: _
+        """
+        if len(s) > 2:
+            return True
+        defined, exp = _nested_ref(expr, s, n)
+        if not defined:
+            return True
+        return bool(sel.match(_nested_record(s, n, inject=True))) == exp
+
+    return check
+
+
 def generators_concrete(tier: str = "quick"):
     """Concrete complement of the symbolic obligations for programs with generator expressions: CrossHair evaluates any()/all() over
     symbolic elements without the early exit of the builtins, so the engine's behaviour after an abandoned generator (loop variables,
@@ -274,6 +407,9 @@ def obligations(tier, seed):
     for i, text in enumerate(TYPED_PROGRAMS):
         for eng in "ic":
             obs.append(ob(f"typed/{eng}/{i}:{text}", "xh", "typed_diff", {"expr": text, "engine": eng}, timeout=to * 2, group=f"typed/{eng}", bounds="s: all strings <= 2 chars, n: all ints; other fields hold concrete typed values"))
+    for i, text in enumerate(NESTED_PROGRAMS):
+        for eng in "ic":
+            obs.append(ob(f"nested/{eng}/{i}:{text}", "xh", "nested_diff", {"expr": text, "engine": eng}, timeout=to * 2, group=f"nested/{eng}", bounds="outer record's s: all strings <= 2 chars, n: all ints; other fields hold concrete typed values; records nested one level (record and record[])"))
     return obs
 
 
@@ -288,6 +424,21 @@ def replay(res):
     from flow.record.selector import CompiledSelector, Selector
 
     a = res["args"]
+    if res["id"].split("/")[1] == "nested":
+        v = cex_args(res, ["s", "n"])
+        cls = Selector if a["engine"] == "i" else CompiledSelector
+        for s_, n_ in [(v.get("s", ""), v.get("n", 0)), ("ab", 4), ("", 0), ("b", 40), ("i", 7), ("go", 41), ("a", 5)]:
+            defined, exp = _nested_ref(a["expr"], s_, n_)
+            if not defined:
+                continue
+            try:
+                got, raised = bool(cls(a["expr"]).match(_nested_record(s_, n_))), None
+            except Exception as e:  # noqa: BLE001
+                got, raised = None, f"{type(e).__name__}: {e}"
+            if raised or got != exp:
+                return {"reproduced": True, "key": f"C07/nested/{a['engine']}/{a['expr']}", "what": f"{cls.__name__}({a['expr']!r}) on a record (s={s_!r}, n={n_!r}, ou='go://o/') holding a record (u='ab://x/y', p='/a/b', s2='in', n2=5) and a list of records (u='ftp://deep/c.txt', p='/d/c.txt', s2='deep', n2=41; one all-unset): "
+                        + (f"raised {raised}" if raised else f"{got}") + f", meaning over all values of that type at any depth: {exp}", "input": {"expr": a["expr"], "s": s_, "n": n_}}
+        return {"reproduced": False, "what": "nested typed program agrees with the reference on the concrete values"}
     if "/typed/" in res["id"] or res["id"].split("/")[1] == "typed":
         from flow.record import RecordDescriptor
 
